@@ -75,9 +75,11 @@ PROPS['C18'] = dict(
     level_note='Trusts the explorer hook and the scheduler substrate; liveness only as termination of bounded programs.',
     jobs=q(
         [dict(target='stdlocks', family='stdlocks', mode='random', cases=25000, workers=12, timeout=600),
-         dict(target='stdlocks', family='stdlocks', mode='dfs', bound=1, workers=4, timeout=600, args=['--dfs-cap', '30000'])],
+         dict(target='stdlocks', family='stdlocks', mode='dfs', bound=1, workers=3, timeout=600, args=['--dfs-cap', '30000']),
+         dict(target='stdlocks-dbg', gen_target='stdlocks', family='stdlocks', mode='dbgreplay', cases=15000, workers=1, timeout=600)],
         [dict(target='stdlocks', family='stdlocks', mode='random', cases=300000, workers=14, timeout=3000),
-         dict(target='stdlocks', family='stdlocks', mode='dfs', bound=2, workers=9, timeout=3000)]),
+         dict(target='stdlocks', family='stdlocks', mode='dfs', bound=2, workers=9, timeout=3000),
+         dict(target='stdlocks-dbg', gen_target='stdlocks', family='stdlocks', mode='dbgreplay', cases=150000, workers=2, timeout=3000)]),
 )
 
 PROPS['C17'] = dict(
@@ -205,7 +207,8 @@ PROPS['C11'] = dict(
     level_note='Trusts the virtual clock / scheduler substrate (its crashes surface as worker crashes).',
     jobs=q(
         [dict(target='wait', family='wait', mode='random', cases=20000, workers=12, timeout=600),
-         dict(target='wait', family='wait', mode='dfs', bound=2, workers=4, timeout=600, args=['--dfs-cap', '6000'])],
+         dict(target='wait', family='wait', mode='dfs', bound=2, workers=3, timeout=600, args=['--dfs-cap', '6000']),
+         dict(target='wait-dbg', gen_target='wait', family='wait', mode='dbgreplay', cases=10000, workers=1, timeout=600)],
         [dict(target='wait', family='wait', mode='random', cases=300000, workers=14, timeout=3000),
          dict(target='wait', family='wait', mode='dfs', bound=3, workers=12, timeout=3000, args=['--dfs-cap', '200000'])]),
 )
